@@ -23,12 +23,12 @@ ASSUMPTIONS = [
 def queries(tier):
     qs = []
 
-    def add(mode, ncls, checked, mask, prior, attempts, sat=None, timeout=1800, indirect=0):
+    def add(mode, ncls, checked, mask, prior, attempts, sat=None, timeout=1800, indirect=0, proj=0):
         hc = 16 if ncls <= 1 else 32 if ncls <= 3 else 64
-        nm = ('lookup_unregistered' if mode == 2 else 'publish') + '_%s%s_n%d_ids%d_prior%d_a%d' % ('checked' if checked else 'fast', '_indirect' if indirect else '', ncls, mask, prior, attempts)
+        nm = ('lookup_unregistered' if mode == 2 else 'publish') + '_%s%s%s_n%d_ids%d_prior%d_a%d' % ('checked' if checked else 'fast', '_indirect' if indirect else '', '_projection' if proj else '', ncls, mask, prior, attempts)
         qs.append(Query(nm, 'c05_hash.cpp',
                         {'MODE': mode, 'NCLS': ncls, 'CHECKED': checked, 'NIDS_MASK': mask, 'PRIOR': prior, 'HASHCAP': hc,
-                         'YOMM2_VERIF_HASH_ATTEMPTS': attempts, 'INDIRECT': indirect},
+                         'YOMM2_VERIF_HASH_ATTEMPTS': attempts, 'INDIRECT': indirect, 'PROJ': proj},
                         unwind=hc + 2, models=True, env=True, uf_mul=True, precise_defines={'IDBITS': 10}, precise_sat='cadical', checks='none', sat=sat, timeout=timeout,
                         covers=(902,) if mode == 2 else ((999, 901, 903) if ncls >= 2 else (999, 901) if ncls == 1 else (999,)),
                         desc=('checked_perfect_hash::hash_type_id on an arbitrary unregistered id: unknown_class_error carrying that id, then abort'
@@ -46,12 +46,17 @@ def queries(tier):
     add(2, 2, 1, 1, 1, 1, sat='cadical')
     add(1, 0, 1, 0, 0, 1)
     add(1, 2, 0, 0, 1, 1, sat='cadical', indirect=1)
+    add(1, 2, 1, 3, 0, 1, sat='cadical', proj=1)
     if tier == 'thorough':
         add(1, 2, 1, 2, 1, 2, sat='cadical', timeout=1800)
         add(1, 3, 1, 7, 0, 2, sat='kissat', timeout=2400)
         add(1, 3, 0, 5, 1, 2, sat='kissat', timeout=2400)
         add(2, 3, 1, 5, 1, 1, sat='kissat', timeout=2400)
     return qs
+
+
+def projection_queries(tier):
+    return [x for x in queries(tier) if '_projection' in x.name]
 
 
 def indirect_queries(tier):
